@@ -90,6 +90,11 @@ impl Rng {
         }
         v
     }
+    /// 0..=max random bytes
+    pub fn bytes_upto(&mut self, max: usize) -> Vec<u8> {
+        let n = self.usize_below(max + 1);
+        self.bytes(n)
+    }
     pub fn shuffle<T>(&mut self, xs: &mut [T]) {
         for i in (1..xs.len()).rev() {
             let j = self.usize_below(i + 1);
